@@ -936,6 +936,12 @@ def hierarchy(ctx):
                     st.append((x, y))
         return False
     ok = not cycle_avoiding(pushes[0]['block']) and not cycle_avoiding(recs[0]['block']) and not cycle_avoiding(ext[0]['block'])
+    # ... and ONLY bases: the push is reached under `is_base` of the element (a filter in the loop source or a test in the body)
+    from guards import block_conditions
+    pcs = block_conditions(f, pushes[0]['block'])
+    in_body = any((strip(p_)[0] == 'field' and strip(p_)[2] == 'is_base') for p_ in pcs)
+    in_src = bool(find_calls(src, 'Iterator::filter')) and base_filter_only(src)
+    ok = ok and (in_body or in_src)
     ctx.ob(['C07'], 'R-DOM', 'DFS|every-base-listed-and-descended', ok,
            'every base region that resolves is listed and descended into — the only ways round are `not a base` and `base not resolved yet` (no sibling-dependent skipping)', where)
     # what is pushed: (path ++ [field name], the region's own type); the recursion gets the extended path
